@@ -25,7 +25,8 @@ def c12(ver):
     if c.get("predicate_table_checks", 0) != 1024:
         ver.inconclusive.append("class predicate table not fully checked")
     # second build: compile-time AVX2 dispatch path (dispatch wrappers differ)
-    for v in (["avx2ct", "sse42ct"] if ver.tier == "thorough" else ["avx2ct"]):
+    # (the dispatch wrappers are different code in each: compile-time AVX2 / SSE4.2, SIMD disabled, no_std)
+    for v in ["avx2ct", "sse42ct", "nosimd", "nostd"]:
         res = run_shards(v, "C12", "small" if ver.tier == "quick" else "quick", ver.seed, NCPU, timeout=3600)
         ver.add_run("native release, compile-time dispatch variant " + v, v, "small", res)
     import engines
